@@ -55,6 +55,9 @@ structure Facts where
   buildProtocol : Bool
   -- unknownfields.go and its three call sites in Decode are, statement by statement, UnknownIdx.lean
   unknownIndexProtocol : Bool
+  -- ttype.go: the type-node cache is keyed by (x.String(), x.S), looked up before and stored right after
+  -- allocation, nowhere else; defs.Type.String() prints what TypeKey.tyChars prints
+  typeNodeCacheKeyed : Bool
   -- C08: writes to / addresses taken of fields reached from a shared descriptor on the hot paths
   descriptorWriteSites : Nat
   descriptorWriteSiteList : List String
